@@ -72,7 +72,8 @@
            "fail_clears"  a failed scan publishes what it has (nil for the failed part); a failed load drops the maps
            "mutate"       SubnetByLocation writes the top ASN into the location it was given
            "foreign_top"  the fall-back takes the top ASN of some other country
-           "any"          (trace validation) at the publication points either the contract or the code's reading
+           "late"         (not a defect) the derived maps are published by RSwapDB, together with the databases
+           "any"          (trace validation) at the publication points the contract, the code's reading, or "late"
    Serial  TRUE: a refresh does not start while another one runs (what
            QuiescentConsistent needs); FALSE: as the code, no exclusion.     *)
 EXTENDS Integers, FiniteSets, Sequences, TLC, Json
@@ -222,7 +223,7 @@ view == <<conf, disk, dbA, dbC, loc4, loc6, c4, c6, locTag, ctryTag, ipc, hostc,
           nput, nref>>
 
 IdleRf == [pc |-> "idle", la |-> 0, lc |-> 0, b4 |-> {}, b6 |-> {}, bc4 |-> {}, bc6 |-> {}, lerr |-> FALSE, cerr |-> FALSE,
-           swl |-> FALSE, swc |-> FALSE, alone |-> TRUE, pre |-> <<>>]
+           swl |-> FALSE, swc |-> FALSE, latel |-> FALSE, latec |-> FALSE, alone |-> TRUE, pre |-> <<>>]
 NoR == [res |-> "", err |-> "", r |-> "", alone |-> TRUE, pre |-> <<>>]
 NoD == [kind |-> "", p |-> 0, err |-> "", a |-> <<>>, host |-> ""]
 NoS == [l |-> NoneLoc, fam |-> 4, got |-> ZeroPfx(4), step |-> "", c |-> "", ok |-> TRUE]
@@ -335,7 +336,7 @@ RStart(r) ==
                                             b4 |-> BuildLoc(la, lc, conf.alltop, 4), b6 |-> BuildLoc(la, lc, conf.alltop, 6),
                                             bc4 |-> BuildCtry(lc, 4), bc6 |-> BuildCtry(lc, 6),
                                             lerr |-> LocScanFails(la, lc), cerr |-> CtryScanFails(lc),
-                                            swl |-> FALSE, swc |-> FALSE, alone |-> Busy = {}, pre |-> Pre]]
+                                            swl |-> FALSE, swc |-> FALSE, latel |-> FALSE, latec |-> FALSE, alone |-> Busy = {}, pre |-> Pre]]
                 /\ lastr' = NoR
                 /\ UNCHANGED <<loc4, loc6, c4, c6, locTag, ctryTag>>
     /\ HR("RStart", r)
@@ -344,25 +345,27 @@ RStart(r) ==
 \* what a goroutine publishes: the contract (nothing unless the whole refresh is good) or the code's reading
 \* (its own result, nil after its own error, whatever the other scan says)
 AsContract(r) == ~rf[r].lerr /\ ~rf[r].cerr
-Readings == IF Defect = "fail_clears" THEN {"code"} ELSE IF Defect = "any" THEN {"contract", "code"} ELSE {"contract"}
+\* or, "late": nothing now, the maps are published by RSwapDB together with the databases
+Readings == CASE Defect = "fail_clears" -> {"code"} [] Defect = "any" -> {"contract", "code", "late"} [] Defect = "late" -> {"late"}
+              [] OTHER -> {"contract"}
 
 RSwapLoc(r) ==
     /\ rf[r].pc = "built" /\ ~rf[r].swl
     /\ \E rd \in Readings :
-         IF rd = "contract" /\ ~AsContract(r) THEN UNCHANGED <<loc4, loc6, locTag>>
-         ELSE IF rf[r].lerr THEN loc4' = {} /\ loc6' = {} /\ locTag' = <<-1, -1>>
-         ELSE loc4' = rf[r].b4 /\ loc6' = rf[r].b6 /\ locTag' = <<rf[r].la, rf[r].lc>>
-    /\ rf' = [rf EXCEPT ![r].swl = TRUE]
+         /\ IF rd = "late" \/ (rd = "contract" /\ ~AsContract(r)) THEN UNCHANGED <<loc4, loc6, locTag>>
+            ELSE IF rf[r].lerr THEN loc4' = {} /\ loc6' = {} /\ locTag' = <<-1, -1>>
+            ELSE loc4' = rf[r].b4 /\ loc6' = rf[r].b6 /\ locTag' = <<rf[r].la, rf[r].lc>>
+         /\ rf' = [rf EXCEPT ![r].swl = TRUE, ![r].latel = (rd = "late")]
     /\ HR("RSwapLoc", r)
     /\ UNCHANGED <<conf, disk, dbA, dbC, c4, c6, ctryTag, ipc, hostc, heap, snaps, lastr, lastd, lasts, nput, nref>>
 
 RSwapCtry(r) ==
     /\ rf[r].pc = "built" /\ ~rf[r].swc
     /\ \E rd \in Readings :
-         IF rd = "contract" /\ ~AsContract(r) THEN UNCHANGED <<c4, c6, ctryTag>>
-         ELSE IF rf[r].cerr THEN c4' = {} /\ c6' = {} /\ ctryTag' = -1
-         ELSE c4' = rf[r].bc4 /\ c6' = rf[r].bc6 /\ ctryTag' = rf[r].lc
-    /\ rf' = [rf EXCEPT ![r].swc = TRUE]
+         /\ IF rd = "late" \/ (rd = "contract" /\ ~AsContract(r)) THEN UNCHANGED <<c4, c6, ctryTag>>
+            ELSE IF rf[r].cerr THEN c4' = {} /\ c6' = {} /\ ctryTag' = -1
+            ELSE c4' = rf[r].bc4 /\ c6' = rf[r].bc6 /\ ctryTag' = rf[r].lc
+         /\ rf' = [rf EXCEPT ![r].swc = TRUE, ![r].latec = (rd = "late")]
     /\ HR("RSwapCtry", r)
     /\ UNCHANGED <<conf, disk, dbA, dbC, loc4, loc6, locTag, ipc, hostc, heap, snaps, lastr, lastd, lasts, nput, nref>>
 
@@ -379,12 +382,16 @@ RJoin(r) ==
 RSwapDB(r) ==
     /\ rf[r].pc = "joined" /\ Defect # "swap2"
     /\ dbA' = rf[r].la /\ dbC' = rf[r].lc
+    /\ IF rf[r].latel THEN loc4' = rf[r].b4 /\ loc6' = rf[r].b6 /\ locTag' = <<rf[r].la, rf[r].lc>>
+       ELSE UNCHANGED <<loc4, loc6, locTag>>
+    /\ IF rf[r].latec THEN c4' = rf[r].bc4 /\ c6' = rf[r].bc6 /\ ctryTag' = rf[r].lc
+       ELSE UNCHANGED <<c4, c6, ctryTag>>
     /\ IF Defect = "noclear" THEN UNCHANGED <<ipc, hostc>> ELSE ipc' = <<>> /\ hostc' = <<>>
     /\ snaps' = snaps \cup {<<rf[r].la, rf[r].lc>>}
     /\ lastr' = [res |-> "ok", err |-> "", r |-> r, alone |-> rf[r].alone, pre |-> rf[r].pre]
     /\ rf' = [rf EXCEPT ![r] = IdleRf]
     /\ HR("RSwapDB", r)
-    /\ UNCHANGED <<conf, disk, loc4, loc6, c4, c6, locTag, ctryTag, heap, lastd, lasts, nput, nref>>
+    /\ UNCHANGED <<conf, disk, heap, lastd, lasts, nput, nref>>
 
 \* the defective swap in two critical sections
 RSwapDBa(r) ==
